@@ -24,4 +24,18 @@ PROPS = {
             {"fuzz": "^FuzzC01$", "test": "FuzzC01", "fuzztime": "120s", "timeout": 400, "group": 1, "weight": 16},
         ]},
     },
+    "C04": {
+        "title": "Nothing is served before a successful login",
+        "level": "exploration",
+        "rule": "rapid-generated (account database, handshake bytes, first transaction with a credential variant, 0..5 appended "
+                "state-changing transactions, ban state, 1-2 logged-in observers) run against the real server in a synctest bubble; "
+                "oracle = login model (valid handshake AND account exists AND wire password == stored password AND address not banned) "
+                "plus: bytes received, config/file snapshot unchanged, observers receive nothing, user list unchanged; "
+                "non-trivial = valid handshake, complete first transaction, rejected, and (near-miss credentials for an existing account "
+                "OR appended state-changing transactions); distinct = hash(handshake, first transaction, appended kinds, ban, accounts)",
+        "assumptions": ["synctest fake clock; stoppable replica of the 6-line outbox pump calling the production sendTransaction",
+                        "passwords <= 72 bytes (bcrypt limit)"],
+        "quick": {"runs": [{"test": "^TestC04$", "shards": 16, "checks": 500, "timeout": 300}]},
+        "thorough": {"runs": [{"test": "^TestC04$", "shards": 16, "checks": 12000, "timeout": 3000}]},
+    },
 }
